@@ -328,7 +328,10 @@ def goReasons (i : E2EIn) : List String :=
       | f :: rest =>
         if f.name == "main" then
           [("go:main:" ++ ((GoFrag.outsideReason i.goenv b.afile b.gensym G closed st f).getD
-            (if f.params.isEmpty then "?" else "main-has-parameters")))]
+            (if f.params.isEmpty then "?" else "main-has-parameters")))] ++
+          -- the ROOT reason: the first failing clause of the deepest callee on the chain of `callee-outside-fragment`s
+          (let r := GoFrag.rootReason i.goenv b.afile b.gensym G closed (b.afile.length + 1) [] "main"
+           if r.1 == "main" then [] else ["go:root:" ++ r.2 ++ "@" ++ r.1])
         else go (GoCompile.compileFn i.goenv st f).2 rest
     go { n := b.gensym, ok := true } b.afile
 
